@@ -311,6 +311,7 @@ func Main(spec *Spec) {
 		*maxRuns, procRun = c.Proc.Run+1, c.Proc.Run
 		*mode = "explore"
 	}
+	core.SetSimCPUs(*seed, *worker)
 	sim.StartWatchdog(out, func() {
 		out.WallMs = time.Since(start).Milliseconds()
 		sim.WriteJSON(*outPath, out)
@@ -320,6 +321,11 @@ func Main(spec *Spec) {
 		if err != nil {
 			fmt.Fprintln(os.Stderr, "replay:", err)
 			os.Exit(2)
+		}
+		core.SimCPUs = 4
+		if c.Proc != nil {
+			sd, _ := strconv.ParseUint(c.Proc.Seed, 10, 64)
+			core.SetSimCPUs(sd, c.Proc.Worker)
 		}
 		want := c.Violation
 		// a case without a recorded schedule is re-run from its scheduler seed
